@@ -614,7 +614,7 @@ def run(ck):
         def chunks(lst, k):
             for a in range(0, len(lst), k):
                 yield a, lst[a:a + k]
-        mb, gp, gt = [], [], []
+        mb, gp, gt, br = [], [], [], []
         failed = None
         def eval_part(bp):
             base, part = bp
@@ -627,14 +627,16 @@ Fixpoint idx {A} (f : nat -> A -> list nat) (i : nat) (l : list A) : list nat :=
 Definition R := Eval vm_compute in
   (idx (fun i c => if str_eqb (minify_css (fst c)) (snd c) then [] else [i]) 0 cases,
    idx (fun i c => if css_guard (fst c) && negb (preserved_b (fst c)) then [i] else []) 0 cases,
-   idx (fun i c => if css_guard (fst c) then [i] else []) 0 cases).
-Eval vm_compute in (fst (fst R)).
+   idx (fun i c => if css_guard (fst c) then [i] else []) 0 cases,
+   idx (fun i c => if css_guard (fst c) && negb (ends_in_string (fst c)) && negb (bridge_b (fst c)) then [i] else []) 0 cases).
+Eval vm_compute in (fst (fst (fst R))).
+Eval vm_compute in (snd (fst (fst R))).
 Eval vm_compute in (snd (fst R)).
 Eval vm_compute in (snd R).
 """)
             rc, out = vf.coq_run(GROUP, os.path.join(ck.work, "m%d" % base), "cases%d" % base, "\n".join(lines), timeout=900)
             lists = re.findall(r"=\s*(\[[^\]]*\]|nil)\s*(?:%\w+)?\s*:\s*list nat", out, re.S)
-            if rc != 0 or len(lists) != 3:
+            if rc != 0 or len(lists) != 4:
                 return out
             return [[base + int(x) for x in re.findall(r"\d+", l)] for l in lists]
         from concurrent.futures import ThreadPoolExecutor
@@ -647,6 +649,7 @@ Eval vm_compute in (snd R).
             mb += r[0]
             gp += r[1]
             gt += r[2]
+            br += r[3]
         ck.cov["stage_seconds"]["model_evaluation"] = round(time.time() - t3, 1)
         if failed is not None:
             ck.violation("correspondence-eval", "model evaluation failed:\n" + failed[-1500:], replay={"log": failed[-3000:]},
@@ -661,6 +664,9 @@ Eval vm_compute in (snd R).
             for i in gp[:5]:
                 ck.violation("guarded-statement-fails", "model: css_guard holds but the normalised token sequence changes for %r -> %r" % (
                     allcases[i][:200].decode("latin-1"), real[i][:200].decode("latin-1")), replay={"cases_hex": [allcases[i].hex()]})
+            for i in br[:5]:
+                ck.violation("bridge-fails", "model: css_guard holds but css_lex0 / css_lex / byte-level normal form disagree (bridge_b) for %r" % (
+                    allcases[i][:200].decode("latin-1")), replay={"cases_hex": [allcases[i].hex()]}, found_input=False)
             gts = set(gt)
             dis = [i for i in range(nmodel) if (i in gts) != pyguard[i]]
             for i in dis[:3]:
